@@ -16,24 +16,25 @@ Drop == [k |-> "Drop", code |-> 0, max |-> Zero]
 Panic == [k |-> "Panic", code |-> 0, max |-> Zero]
 Answers1 == {Normal(200), Normal(103), Normal(404), Normal(500), Fetch(D(0)), Fetch(D(2)), Fetch(D(3)), Fetch(U64Max), Drop, Panic}
 Answers2 == {Normal(200), Normal(103), Normal(500), Fetch(D(3)), Drop, Panic}
-Faults == {<<FALSE, FALSE, FALSE>>, <<TRUE, FALSE, FALSE>>, <<FALSE, TRUE, FALSE>>, <<FALSE, FALSE, TRUE>>}
+Faults == {<<FALSE, FALSE, FALSE, FALSE>>, <<TRUE, FALSE, FALSE, FALSE>>, <<FALSE, TRUE, FALSE, FALSE>>, <<FALSE, FALSE, TRUE, FALSE>>,
+           <<FALSE, FALSE, FALSE, TRUE>>}
 R(kind, L, sent, full, expect, a1, a2, f) ==
   [kind |-> kind, L |-> L, sent |-> sent, digest |-> IF sent = Zero THEN 0 ELSE 7, full |-> full, expect |-> expect,
-   answers |-> <<a1, a2>>, dirGone |-> f[1], diskFail |-> f[2], rst |-> f[3]]
-None == {R("none", Zero, Zero, TRUE, FALSE, a, Normal(200), <<FALSE, FALSE, FALSE>>) : a \in Answers2}
-Small == {R("known", D(l), IF full THEN D(l) ELSE D(l - 1), full, ex, a, Normal(200), <<FALSE, FALSE, FALSE>>) :
+   answers |-> <<a1, a2>>, dirGone |-> f[1], diskFail |-> f[2], rst |-> f[3], contFail |-> f[4]]
+None == {R("none", Zero, Zero, TRUE, FALSE, a, Normal(200), <<FALSE, FALSE, FALSE, FALSE>>) : a \in Answers2}
+Small == {R("known", D(l), IF full THEN D(l) ELSE D(l - 1), full, ex, a, Normal(200), <<FALSE, FALSE, FALSE, FALSE>>) :
             l \in 1..2, full \in BOOLEAN, ex \in BOOLEAN, a \in Answers2}
 Large == {R("known", D(3), IF full THEN D(3) ELSE D(1), full, ex, a1, a2, f) :
             full \in BOOLEAN, ex \in BOOLEAN, a1 \in Answers1, a2 \in Answers2, f \in Faults}
 Unknown == {R("unknown", Zero, D(n), TRUE, ex, a1, a2, f) :
             n \in {0, 3, 4}, ex \in BOOLEAN, a1 \in Answers1, a2 \in Answers2, f \in Faults}
-Malformed == {R("malformed", Zero, Zero, TRUE, FALSE, Normal(200), Normal(200), <<FALSE, FALSE, FALSE>>)}
+Malformed == {R("malformed", Zero, Zero, TRUE, FALSE, Normal(200), Normal(200), <<FALSE, FALSE, FALSE, FALSE>>)}
 Pool == None \cup Small \cup Large \cup Unknown \cup Malformed
 \* requests after which the connection stays open
-Openers == {R("none", Zero, Zero, TRUE, FALSE, Normal(200), Normal(200), <<FALSE, FALSE, FALSE>>),
-            R("known", D(2), D(2), TRUE, TRUE, Normal(200), Normal(200), <<FALSE, FALSE, FALSE>>),
-            R("known", D(3), D(3), TRUE, FALSE, Fetch(D(3)), Normal(200), <<FALSE, FALSE, FALSE>>),
-            R("known", D(3), D(3), TRUE, TRUE, Fetch(U64Max), Normal(200), <<FALSE, FALSE, FALSE>>)}
+Openers == {R("none", Zero, Zero, TRUE, FALSE, Normal(200), Normal(200), <<FALSE, FALSE, FALSE, FALSE>>),
+            R("known", D(2), D(2), TRUE, TRUE, Normal(200), Normal(200), <<FALSE, FALSE, FALSE, FALSE>>),
+            R("known", D(3), D(3), TRUE, FALSE, Fetch(D(3)), Normal(200), <<FALSE, FALSE, FALSE, FALSE>>),
+            R("known", D(3), D(3), TRUE, TRUE, Fetch(U64Max), Normal(200), <<FALSE, FALSE, FALSE, FALSE>>)}
 RECURSIVE OpenSeqs(_)
 OpenSeqs(n) == IF n = 0 THEN {<<>>} ELSE LET P == OpenSeqs(n - 1) IN P \cup {Append(p, o) : p \in {q \in P : Len(q) = n - 1}, o \in Openers}
 Scenarios == {o \o <<q>> : o \in OpenSeqs(MaxOpen), q \in Pool} \cup OpenSeqs(MaxOpen)
